@@ -139,3 +139,40 @@ func magicFor(name string) uint32 {
 	h.Write([]byte(name))
 	return h.Sum32()&0x3fffffff | 0x40000000
 }
+
+// Endpoints are drawn independently of names, again as a related group: the same
+// endpoint under different listener names is the interesting collision, next to forms a
+// loosely comparing implementation would identify (case, slashes, URL escapes), the
+// teamserver's own routes, the operator-side fixture listener's endpoint and the empty
+// string.  The teamserver compares endpoints exactly (EndpointAdd / EndpointRemove).
+const emptyEndpoint = "<empty>" // spelled out in cases; stands for ""
+
+func endpointVariants() []nameVariant {
+	return []nameVariant{
+		{"c2", "base"}, {"c2", "base"}, {"c2", "base"},
+		{"C2", "case-variant"}, {"/c2", "leading-slash"}, {"c2/", "trailing-slash"}, {"c%32", "url-escaped"},
+		{"havoc/", "teamserver-route"}, {"svc", "service-route"}, {"opext", "operator-listener-endpoint"},
+		{emptyEndpoint, "empty"}, {"other", "unrelated"},
+	}
+}
+
+func genEndpoint(t *rapid.T) string {
+	return rapid.SampledFrom(endpointVariants()).Draw(t, "endpoint").Name
+}
+
+func endpointClass(ep string) string {
+	for _, v := range endpointVariants() {
+		if v.Name == ep {
+			return v.Class
+		}
+	}
+	return "by-name"
+}
+
+// realEndpoint turns the spelled-out form into the string that is sent.
+func realEndpoint(ep string) string {
+	if ep == emptyEndpoint {
+		return ""
+	}
+	return ep
+}
